@@ -10,7 +10,7 @@ import os, random, re, shutil, tempfile, glob
 from .. import impl, coqrun, sheetcases as SC
 from ..gens import sheet as S
 
-FEATURES = 'media,amp,keyframes,fontface,stmt,str,url,attr,pseudo2,var,mixin'.split(',')
+FEATURES = 'media,amp,keyframes,fontface,stmt,str,rstr,istr,url,attr,pseudo2,var,mixin'.split(',')
 RULE = ('(a) raw and filtered token streams of the model lexer vs the real lexer; (b) base program vs 3 variants differing only in whitespace-run content, '
         'comments at statement boundaries and last semicolons, all %d option vectors sampled; (c) corpus files vs variants built from the real lexer token positions; '
         'distinct = distinct (program, layout); non-trivial = the variant has a newline-only or CRLF run inside a selector/value, a comment whose body contains ; { } quotes or //, '
@@ -90,7 +90,10 @@ def gen_program(rng):
     if rng.random() < 0.3 and hasattr(g, 'mixin_program'):
         sh = g.mixin_program()
     else:
-        sh = g.sheet(nunits=rng.choice([1, 2, 3]), depth=rng.randint(1, 3))
+        # variables of identifier / number kind for interpolated strings: a declaration may END in "..@{v}.." with its semicolon omitted
+        names = rng.sample(['@i1', '@i2', '@n'], rng.randint(0, 2))
+        g.ivars = names
+        sh = [('var', nm, [rng.choice([('num', '5'), ('word', 'foo'), ('num', '12px')])]) for nm in names] + g.sheet(nunits=rng.choice([1, 2, 3]), depth=rng.randint(1, 3))
     return sh
 
 
@@ -197,7 +200,13 @@ def run(ctx):
         variants = []
         for _ in range(3):
             L = VLayout(seed, random.Random(rng.randrange(1 << 30)))
-            variants.append((S.show(sh, L), L.stats))
+            vt = S.show(sh, L)
+            if rng.random() < 0.3:
+                # a line comment that ends the source, with no line break after it (the text ends at a statement boundary)
+                vt += rng.choice(['', ' ', '\n']) + '//' + MARK + rng.choice(LINE_BODIES)
+                L.stats['line_comments'] += 1
+                L.stats['tricky_comments'] += 1
+            variants.append((vt, L.stats))
         progs.append({'sheet': sh, 'base': base, 'variants': variants, 'opts': rng.choice(SC.ALL_OPTS)})
     reqs = []
     for p in progs:
